@@ -170,6 +170,12 @@ def special_expr(rng):
         ["bin", "**", C(10), C(400)], ["bin", "~", F(C("nan"), "float"), C("x")],
         ["list", [F(C("inf"), "float"), C(1)]], ["cmp", F(C("inf"), "float"), [[">", C(1)]]],
         F(["bin", "*", C("9"), C(50)], "int"), ["un", "-", F(C("inf"), "float")],
+        # constant-bounds slices of values that cannot be sliced (and of ones that can)
+        ["slice", N_("i1"), C(1), C(3), None], ["slice", C(5), C(0), C(1), None],
+        ["slice", N_("n1"), None, C(2), None], ["slice", N_("d1"), None, None, C(2)],
+        ["slice", ["dict", [[C("a"), C(1)]]], C(0), C(1), None], ["slice", N_("f1"), C(0), None, None],
+        ["slice", N_("s1"), C(1), C(3), None], ["slice", N_("l1"), None, None, ["un", "-", C(1)]],
+        ["filter", ["slice", N_("i1"), C(1), C(3), None], "default", [C("dflt")], []],
         ["bin", "/", C(1), C(3)], ["bin", "*", C(0.1), C(3)], ["bin", "-", C(0.0), C(0.0)],
         ["un", "-", C(0.0)], ["bin", "*", ["un", "-", C(1)], C(0.0)],
     ])
